@@ -649,6 +649,8 @@ Next ==
                  known == s0.live /\ s0.sync /\ UNKNOWN \notin SetOfSeq(L.cname) /\ UNKNOWN \notin SetOfSeq(L.rname)
                  truth == IF known /\ ~IsNone(s0.truth) THEN s0.truth.status ELSE 0
                  code == CASE ev.status = "OPTIMAL" -> 1 [] ev.status = "INFEASIBLE" -> 2 [] ev.status = "UNBOUNDED" -> 3 [] OTHER -> 0
+                 libKnown == "samecfg" \in DOMAIN ev /\ ev.samecfg = 1 /\ s0.live /\ ~IsNone(s0.lastany) /\ s0.lastany.rval = 0
+                 libCode == IF libKnown /\ s0.lastany.status \in {1, 2, 3} THEN s0.lastany.status ELSE 0
                  pick(list, nm) == LET h == {k \in 1..Len(list) : list[k].name = nm} IN IF h = {} THEN "0" ELSE list[CHOOSE k \in h : TRUE].v
                  sol == [val |-> ev.val, x |-> [j \in 1..L.n |-> pick(ev.vars, L.cname[j])], rc |-> [j \in 1..L.n |-> pick(ev.rc, L.cname[j])],
                          pi |-> [i \in 1..L.m |-> pick(ev.pi, L.rname[i])], slack |-> [i \in 1..L.m |-> pick(ev.slack, L.rname[i])]]
@@ -658,7 +660,11 @@ Next ==
              IN /\ viol' = viol
                      \cup (IF ev.exit # 0 THEN {V(ev, {"C19"}, "esolver exits " \o ToString(ev.exit) \o " on a readable problem file (" \o ev.args \o ")")} ELSE {})
                      \cup (IF ev.exit = 0 /\ truth # 0 /\ code # truth THEN {V(ev, {"C19"}, "solution file states " \o ev.status \o " but the verified truth is status " \o ToString(truth))} ELSE {})
-                     \cup (IF ev.exit = 0 /\ code = 0 /\ known /\ S!WellFormed(L) THEN {V(ev, {"C19"}, "solution file states no definitive status: " \o ev.status)} ELSE {})
+                     \* "reports exactly what the library computed": the same solve through the library (same algorithm, pricing, scaling) precedes
+                     \* the run in the scenario; a non-definitive answer of the library itself is C03's business, not the program's
+                     \cup (IF ev.exit = 0 /\ libKnown /\ code # libCode
+                           THEN {V(ev, {"C19"}, "solution file states " \o ev.status \o " but the library, called with the same settings, answers status " \o ToString(s0.lastany.status))} ELSE {})
+                     \cup (IF ev.exit = 0 /\ code = 0 /\ known /\ S!WellFormed(L) /\ ~libKnown THEN {V(ev, {"C19"}, "solution file states no definitive status: " \o ev.status)} ELSE {})
                      \cup (IF ds = {} THEN {} ELSE {V(ev, {"C19"}, "the solution file does not contain an exact optimality certificate: " \o ToString(DefectText(ds)))})
                      \cup (IF known /\ code = 1 /\ (strays # {} \/ zeros) THEN {V(ev, {"C19"}, "solution file lists unknown names or zero entries")} ELSE {})
                      \cup (IF ev.exit = 0 /\ code = 1 /\ truth = 1 /\ ev.val # s0.truth.val THEN {V(ev, {"C19"}, "optimal value in the solution file differs from the verified optimum")} ELSE {})
